@@ -226,7 +226,7 @@ def parse_log(text):
     if re.search(r"^error(\[E\d+\])?: ", text, re.M) and res["verdict"] is None:
         res["compile_error"] = True
     for name, status, desc, loc in _iter_checks(text):
-        if ".cover." in name or desc.startswith("W: ") or desc.startswith("W@") or desc.startswith("U: "):
+        if ".cover." in name or desc.startswith(("W: ", "W@", "W!", "U: ")):
             res["covers"].append({"desc": desc, "status": status})
         elif status == "FAILURE":
             res["failed"].append({"check": name, "desc": desc, "loc": (loc or "").strip()})
@@ -303,6 +303,8 @@ def classify(h, res):
         required = d.startswith("W: ")
         if d.startswith("W@"):  # `W@tag: text` is required only in harnesses whose name contains the tag
             required = d[2:d.index(":")] in h.name
+        if d.startswith("W!"):  # `W!tag: text` is required except in harnesses whose name contains the tag
+            required = d[2:d.index(":")] not in h.name
         if required and c["status"] != "SATISFIED":
             reasons.append("witness not satisfied: " + d)
         if c["desc"].startswith("U: ") and c["status"] == "SATISFIED":
